@@ -112,7 +112,7 @@ if __name__ == "__main__":
         c02(); sys.exit(0)
     if which == "C01":
         imports = ("Scalar Rops Sums Deriv Dual DualProofs Drag DragDeriv Stress StressDeriv StressProofs Transfer TransferDeriv Loads LoadsDeriv "
-                   "Functionals FunctionalsDeriv Aero AeroDeriv PG PGDeriv Beam BeamTables BeamDeriv Geom GeomDeriv Misc MiscDeriv MultiSec MultiSecDeriv")
+                   "Functionals FunctionalsDeriv Aero AeroDeriv PG PGDeriv Beam BeamTables BeamDeriv Geom GeomDeriv Misc MiscDeriv MultiSec MultiSecDeriv Wingbox WingboxDeriv")
         items = [
             ("C01_dual_number_tangent_is_the_partial_derivative", "DR_partial", "the meaning of every statement below: the tangent part of the dual-number evaluation is the coordinate partial derivative"),
             ("C01_seeded_coordinate", "DR_upd1", None),
@@ -205,6 +205,13 @@ if __name__ == "__main__":
             ("C01_Energy", "energy_DR", None),
             ("C01_GeomMultiUnification", "unify_DR", "multi-section wings: any number of sections, with and without the leading-edge shift"),
             ("C01_GeomMultiJoin", "join_sep_DR", None),
+            ("C01_SectionPropertiesWingbox", "wb_out_DR", "structures/section_properties_wingbox.py (partials declared by complex step): all eleven outputs, any number of airfoil points, at every admissible point (record wb_admissible: what the formulas divide by or take the root of)"),
+            ("C01_SectionPropertiesWingbox_admissible_points_exist", "wb_admissible_box", "non-vacuity: a rectangular box satisfies wb_admissible"),
+            ("C01_SectionPropertiesWingbox_extreme_fibre_needs_no_unique_maximum", "ks_max_DR", "htop / hbottom: the max-shift of the KS function is immaterial (lse_shift), so ties in the airfoil ordinates are not a non-smooth point"),
+            ("C01_WingboxGeometry_streamwise_chords", "wg_sw_DR", "structures/wingbox_geometry.py (partials declared by finite differences)"),
+            ("C01_WingboxGeometry_fem_chords", "wg_fem_chord_DR", None),
+            ("C01_WingboxGeometry_fem_twists", "wg_fem_twist_DR", "only where both end sections are twisted (wg_twisted): the arccosine twist measure has a kink at zero twist - finding F13"),
+            ("C01_WingboxGeometry_twist_measure_refuted_at_zero_twist", "wg_theta_not_differentiable_at_zero_twist", "the hypothesis wg_twisted cannot be dropped: at an untwisted section (the default mesh) the twist measure is |twist|, which has no derivative; the code nevertheless reports one (finding F13, replayed on the implementation by the oracle WingboxGeometry.untwisted-sections)"),
         ]
         hdr = "C01 - analytic component derivatives equal the true derivatives.  Property theorems only (statements printed by Coq from the libraries Real/*Deriv.v).  DR g t0 p  :=  g t0 = fst p /\\ is_derive g t0 (snd p);  every theorem says: along ANY differentiable curve of the inputs, the dual-number evaluation of the component model gives the value and the derivative - hence every partial derivative (C01_dual_number_tangent_is_the_partial_derivative) and, by composition, every chain of components"
         old = [f for f in os.listdir(os.path.join(COQ, "Props")) if f.startswith("C01")]
